@@ -20,13 +20,14 @@ CLAIMED = {
     "C15": ("modset",
             "interprocedural may-alias / mod-set analysis with k-limited access paths and function summaries",
             "Decides the property for every public value-returning operation in scope (tensor, backend_np, krylov, "
-            "operators, mps, fpeps containers; thorough adds fpeps/envs): a flow-sensitive alias analysis with summaries "
+            "operators, mps, fpeps containers; PEPS environments are out of the engine's scope, their copy()/clone() is checked "
+            "structurally): a flow-sensitive alias analysis with summaries "
             "iterated to a fixpoint shows that no write (field/item store, container mutator, in-place array operator, "
             "out= argument, call of a mutating callee) can land in an object reachable from a parameter; copy()/clone() "
             "are shown to return storage that does not alias the source; backend kernels write only arrays they allocate.",
             "conservative may-alias analysis: unresolved calls (listed in evidence) are assumed not to mutate; method calls "
             "resolve by inferred receiver class / package layering; 8 named exceptions with reasons in sa/props/c15.py; "
-            "torch backends only parsed in the thorough tier",
+            "torch backends and yastn/tn/fpeps/envs are not analysed (DESIGN 9.9)",
             "DESIGN.md §4 C15"),
     "C16": ("cachepure",
             "purity/closedness analysis of memoised functions + alias tracking of cached values + table pairing",
